@@ -29,7 +29,7 @@ def run(ck):
     outs.append(sim)
     for o in outs:
         bad = ck.wd(os.path.basename(o) + ".bad")
-        s = vh_json(["c03", "--in", o, "--out", bad, "--load", "1"])
+        s = vh_json(["c03", "--in", o, "--out", bad, "--load", "1", "--breaks", "1"])
         ck.evaluations += s["runs"]
         ck.distinct += s["distinct"]
         ck.traces += s["behaviours"]
